@@ -50,6 +50,96 @@ let handle kind a =
         List.map (fun p -> match split_on ':' p with
           | [k; l] -> (n_of_dec k, n_of_dec l) | _ -> failwith "op") (split_on ',' a.(1)) in
       Some (match alignment_end start cigar with ENone -> "-" | EErr -> "Err" | EPos p -> dec_of_n p)
+  | "bamq" ->
+      (* real BAM file: records with their virtual offsets; see harness/src/shared/c04_fmt.rs *)
+      let kd = if a.(0) = "lin" then Linear else Binned in
+      let ms = n_of_int (int_of_string a.(1)) and d = nat_of_int (int_of_string a.(2)) in
+      let nref = nat_of_int (int_of_string a.(3)) in
+      let h0 = n_of_dec a.(4) in
+      let opt s = if s = "-" then None else Some (n_of_dec s) in
+      let file = if a.(5) = "_" then [] else
+        List.map (fun p -> match split_on ':' p with
+          | [rid; pos; cg; unm; _; ra; rb] ->
+              let cigar = if cg = "_" then [] else
+                List.map (fun o -> match split_on '.' o with
+                  | [k; l] -> (n_of_dec k, n_of_dec l) | _ -> failwith "op") (split_on '/' cg) in
+              { b_rid = opt rid; b_pos = opt pos; b_cigar = cigar; b_unm = (unm = "1");
+                b_a = n_of_dec ra; b_b = n_of_dec rb }
+          | _ -> failwith "bam rec") (split_on ',' a.(5)) in
+      let offs l = if l = [] then "_" else String.concat "," (List.map (fun r -> dec_of_n r.b_a) l) in
+      (match bam_index ms d nref file with
+       | None -> Some (match bam_index_scan file with Some FPanic -> "IxPanic" | _ -> "IxErr")
+       | Some ixs ->
+           let b = Buffer.create 256 in
+           Buffer.add_string b "ok";
+           List.iter (fun q ->
+             Buffer.add_char b '|';
+             if q = "U" then Buffer.add_string b (offs (bam_query_unmapped kd ixs h0 file))
+             else match split_on ':' q with
+               | [k; s; e] ->
+                   (match bam_query_fast kd ms d ixs file (n_of_dec k) (opt s, opt e) with
+                    | QInvalid -> Buffer.add_string b "Err:InvalidInput"
+                    | QRecErr -> Buffer.add_string b "Err:InvalidData"
+                    | QOk l -> Buffer.add_string b (offs l))
+               | _ -> failwith "query") (split_on ';' a.(6));
+           Some (Buffer.contents b))
+  | "bamc" ->
+      (* the reading step alone: arbitrary chunk list over a real BAM file *)
+      let opt s = if s = "-" then None else Some (n_of_dec s) in
+      let file = if a.(2) = "_" then [] else
+        List.map (fun p -> match split_on ':' p with
+          | [rid; pos; _; unm; _; ra; rb] ->
+              { b_rid = opt rid; b_pos = opt pos; b_cigar = []; b_unm = (unm = "1");
+                b_a = n_of_dec ra; b_b = n_of_dec rb }
+          | _ -> failwith "bam rec") (split_on ',' a.(2)) in
+      let cs = List.map (fun p -> match split_on ':' p with
+        | [x; y] -> (n_of_dec x, n_of_dec y) | _ -> failwith "chunk") (split_on ';' a.(3)) in
+      let l = bam_chunk_read (n_of_dec a.(1)) cs file in
+      Some (if l = [] then "_" else String.concat "," (List.map (fun r -> dec_of_n r.b_a) l))
+  | "vcfq" ->
+      (* real VCF.gz (tabix) / BCF (CSI) file; see harness/src/shared/c04_fmt.rs *)
+      let bcf = a.(0) = "bcf" in
+      let v45 = a.(1) = "45" in
+      let nctg = nat_of_int (int_of_string a.(2)) in
+      let opt s = if s = "-" then None else Some (n_of_dec s) in
+      let optlist s = List.map (fun x -> if x = "." then None else Some (z_of_dec x)) (split_on '/' s) in
+      let file = if a.(5) = "_" then [] else
+        List.map (fun p -> match split_on ':' p with
+          | [chrom; pos; reflen; en; svlen; len; alts; ra; rb] ->
+              let si = {
+                si_pos = n_of_dec pos; si_reflen = n_of_dec reflen;
+                si_end = (if en = "-" then None else Some (Some (VInteger (z_of_dec en))));
+                si_svlen = (if svlen = "-" then None else Some (Some (VIntArr (optlist svlen))));
+                si_len = (if len = "-" then None else
+                  Some (List.map (fun o -> match o with None -> None | Some z -> Some (VInteger z)) (optlist len))) } in
+              let kinds = if alts = "_" then [] else
+                List.init (String.length alts) (fun i -> match alts.[i] with
+                  | 'D' -> AltDel | 'U' -> AltDup | 'V' -> AltInv | 'C' -> AltCnv | 'I' -> AltIns
+                  | 'O' -> AltOther | _ -> AltSeq) in
+              { v_id = n_of_dec chrom; v_in = si; v_alts = kinds; v_a = n_of_dec ra; v_b = n_of_dec rb }
+          | _ -> failwith "vcf rec") (split_on ',' a.(5)) in
+      let offs l = if l = [] then "_" else String.concat "," (List.map (fun r -> dec_of_n r.v_a) l) in
+      let ms = n_of_int 14 and d = nat_of_int 5 in
+      let index = if bcf then vcf_index true v45 ms d nctg file else tabix_index v45 file in
+      (match index with
+       | None ->
+           let sc = if bcf then vcf_index_scan true v45 file else tabix_index_scan v45 file in
+           Some (match sc with Some FPanic -> "IxPanic" | _ -> "IxErr")
+       | Some ixs ->
+           let b = Buffer.create 256 in
+           Buffer.add_string b "ok";
+           List.iter (fun q ->
+             match split_on ':' q with
+             | [k; s; e] ->
+                 Buffer.add_char b '|';
+                 let r = if bcf then vcf_query_fast v45 Binned ms d ixs file (n_of_dec k) (opt s, opt e)
+                         else tabix_query v45 ixs file (n_of_dec k) (opt s, opt e) in
+                 (match r with
+                  | QInvalid -> Buffer.add_string b "Err:InvalidInput"
+                  | QRecErr -> Buffer.add_string b "Err:InvalidData"
+                  | QOk l -> Buffer.add_string b (offs l))
+             | _ -> ()) (split_on ';' a.(6));
+           Some (Buffer.contents b))
   | _ -> None
 
 let () = run_driver handle
